@@ -232,6 +232,10 @@ func (w *worker[T, JobType]) WaitUntilFinished() {
 }
 
 func (w *worker[T, JobType]) Errs() <-chan error {
+	// Restart replaces the channel
+	w.mx.RLock()
+	defer w.mx.RUnlock()
+
 	return w.errorChan
 }
 
@@ -442,7 +446,9 @@ func (w *worker[T, JobType]) goRemoveIdleWorkers() {
 }
 
 func (w *worker[T, JobType]) goListenToContext() {
-	if w.ctx == nil {
+	ctx := w.Context()
+
+	if ctx == nil {
 		return
 	}
 
@@ -458,13 +464,17 @@ func (w *worker[T, JobType]) goListenToContext() {
 		if current {
 			w.Stop()
 		}
-	}(w.ctx)
+	}(ctx)
 }
 
 // starts the event loop that processes pending jobs when workers become available
 // It continuously checks if the worker is running, has available capacity, and if there are jobs in the queue
 // When all conditions are met, it processes the next job in the queue
 func (w *worker[T, JobType]) goEventLoop() {
+	w.mx.RLock()
+	eventLoopSignal := w.eventLoopSignal
+	w.mx.RUnlock()
+
 	go func(signal <-chan struct{}) {
 		for range signal {
 			for w.IsRunning() && w.curProcessing.Load() < w.concurrency.Load() && w.queues.Len() > 0 {
@@ -476,7 +486,7 @@ func (w *worker[T, JobType]) goEventLoop() {
 			// the queue may have been emptied without any job finishing (purge)
 			w.releaseWaiters(w.curProcessing.Load())
 		}
-	}(w.eventLoopSignal)
+	}(eventLoopSignal)
 }
 
 func (w *worker[T, JobType]) stopTickers() {
@@ -621,8 +631,12 @@ func (w *worker[T, JobType]) Stop() error {
 		return ErrNotRunningWorker
 	}
 
-	if w.cancel != nil {
-		defer w.cancel()
+	w.mx.RLock()
+	cancel := w.cancel
+	w.mx.RUnlock()
+
+	if cancel != nil {
+		defer cancel()
 	}
 	defer w.status.Store(stopped)
 
@@ -732,6 +746,10 @@ func (w *worker[T, JobType]) Resume() error {
 }
 
 func (w *worker[T, JobType]) Context() context.Context {
+	// Restart replaces the context
+	w.mx.RLock()
+	defer w.mx.RUnlock()
+
 	return w.ctx
 }
 
